@@ -204,10 +204,52 @@ def rule_introducers(ctx, res):
                       sorted(i.decode() for i in got),
                       sorted(i.decode() for i in lex_intro - got)),
                   f.module.loc(s.node))
-    if n < 3:
+    # the three things the pipeline does to a comment: two spaces in front of
+    # one that shares its line with code, the block's indentation in front of
+    # one on its own line, none in front of one that opens the file
+    kinds = {'same-line': False, 'own-line': False, 'file-start': False}
+    for s in subs:
+        tree = rx.parse(s.pattern)
+        pl = Lang.from_nfa(rx.build_tree(tree, 0, True))
+        if all(_intersect_empty(pl, i) for i in (b'--', b'//')):
+            continue
+        g = s.guard.replace(' ', '')
+        if s.pattern.startswith(b'^') and ('!=0' in g or '0!=' in g):
+            kinds['same-line'] = True
+        elif s.pattern.startswith(b'^') and ('==0' in g or '0==' in g):
+            kinds['file-start'] = True
+        elif s.pattern.startswith(b'\\n') and any(
+                p[0] == 'spaces' for p in s.repl):
+            kinds['own-line'] = True
+    if n == 0:
         res.vanished('R-C10-introducers', f.qual, 'comment steps',
-                     'expected three comment re-indentation steps, found '
-                     '{}'.format(n))
+                     'no comment re-indentation step found')
+    elif n >= 3 and not all(kinds.values()):
+        # three comment steps are there; which is which is read off their
+        # guards, and a guard spelled differently is not a missing step
+        res.holds('R-C10-introducers', f.qual,
+                  'three comment re-indentation steps',
+                  '{} steps (roles not all recognised: {})'.format(
+                      n, sorted(k for k, v in kinds.items() if not v)),
+                  f.loc, nontrivial=False)
+    else:
+        res.check(kinds['own-line'], 'R-C10-introducers', f.qual,
+                  'a comment on its own line is put at the indentation of '
+                  'its block', '',
+                  'no step re-indents a comment that stands on its own line: '
+                  'it keeps the indentation of the input, so the output '
+                  'depends on how the input was indented', f.loc)
+        res.check(kinds['same-line'], 'R-C10-introducers', f.qual,
+                  'a comment behind code on the same line is separated by '
+                  'two spaces', '',
+                  'no step normalises the space in front of a comment that '
+                  'shares its line with code: the output depends on the '
+                  'input\'s spacing', f.loc)
+        res.check(kinds['file-start'], 'R-C10-introducers', f.qual,
+                  'a comment that opens the file starts in column 0', '',
+                  'no step removes the space in front of a comment at the '
+                  'start of the file: the output depends on the input\'s '
+                  'spacing', f.loc)
 
 
 def _starts_with(nfa, intro):
